@@ -111,6 +111,25 @@ def gen_cases(ctx):
     for v in ROUNDING_CORPUS:
         for d in (0.0, 0.999999):
             mk("measure", 1, v, "C", [0], draw=float2bits(d)); mk("measure", 1, v, "C", [], draw=float2bits(d))
+    # many outcomes at once: all 10 / 11 qubits of a register measured in one call (1024 / 2048 outcomes), on basis states, sparse and
+    # dense states. The reference for these is computed by the driver (the model's evaluation in Coq is quadratic in the number of
+    # amplitudes); labelled large_registers in the evidence
+    for n in (10, 11):
+        dim = 1 << n
+        for kind in ("basis", "basis", "two", "dense"):
+            if kind == "basis":
+                v = [0.0] * (2 * dim); k = rng.choice([63, 5, dim - 1, rng.randrange(dim)]); v[2 * k], v[2 * k + 1] = 0.6, -0.8
+            elif kind == "two":
+                v = [0.0] * (2 * dim); k1, k2 = rng.sample(range(dim), 2); v[2 * k1] = 0.6; v[2 * k2 + 1] = 0.8
+            else:
+                v = [bits2float(x) for x in rand_vec(rng, n, "normalised")]
+            for qs in ([], sorted(rng.sample(range(n), 10), reverse=True)):
+                for d in rng.sample(grid[1:-1], 2):
+                    mk("measure", n, [float2bits(x) for x in v], "C", qs, draw=float2bits(d), big=True)
+    # the generator itself: 4 threads that start together measure |+...+> (12 qubits) 12 times each - no two records may coincide
+    # (probability 2^-144 per pair for independent draws); 256 shots of one measure_n on the same state - at least 200 distinct outcomes
+    # (about 248 expected; fewer than 200 has probability below 1e-25)
+    mk("independence", 12, [float2bits(1.0), float2bits(0.0)] + [float2bits(0.0)] * (2 * 4096 - 2), "C", [], threads=4, per_thread=12, shots=256)
     # argument errors
     for n in (1, 2, 3):
         v = entangled(rng, n, "random")
@@ -170,6 +189,7 @@ def run_cases(ctx, cases):
         par = cqbool(c["n"] >= c["thr"])
         if r["r"] not in ("ok", "err", "panic"): continue
         if any(q >= 2**30 for q in c["qs"]) and c["mode"] != "measure": continue
+        if c.get("big"): continue            # judged by the driver's own reference (judge_big)
         if c["mode"] == "measure" or c["mode"] == "repeat":
             d = c["draw"]
             terms.append("check_measure %s %s %s %s %s %s %s" % (par, cq_basis(c), cqN(c["n"]), cqvec(c["v"]), cqNs(c["qs"]), cqf(d), cq_mimpl(r))); idx.append((i, "m"))
@@ -190,6 +210,32 @@ def run_cases(ctx, cases):
 
 def sorted_shots(c, r):
     return r.get("shots", [])
+
+def judge_big(ctx, c, r, stats):
+    """reference for registers measured in 1024+ outcomes: Born weights, the outcome the draw selects, the renormalised projection"""
+    n = c["n"]; qs = c["qs"] or list(range(n)); dim = 1 << n
+    v = [bits2float(x) for x in c["v"]]
+    probs = [0.0] * (1 << len(qs)); outc = [0] * dim
+    for idx in range(dim):
+        o = 0
+        for i, q in enumerate(qs):
+            if (idx >> q) & 1: o |= 1 << i
+        outc[idx] = o; probs[o] += v[2 * idx] ** 2 + v[2 * idx + 1] ** 2
+    tot = sum(probs); d = bits2float(c["draw"]); cum = 0.0; k = None; near = False
+    for o, pr in enumerate(probs):
+        cum += pr / tot
+        if abs(d - cum) < 1e-9 and pr > 0: near = True
+        if k is None and d < cum: k = o
+    stats["large_registers"] = stats.get("large_registers", 0) + 1
+    if near or k is None: return
+    got = sum((1 << i) for i, bit in enumerate(r["outcomes"]) if bit)
+    if got != k:
+        ctx.violations.append(("measuring %d qubits at once: the outcome returned (%d, Born weight %.3g) is not the one the draw %.6f selects (%d, weight %.3g)" % (len(qs), got, probs[got] / tot, d, k, probs[k] / tot),
+                               {"case": c, "brief": brief(c), "outcomes": r["outcomes"]})); return
+    nrm = math.sqrt(probs[k]); w = [bits2float(x) for x in r["v"]]
+    err = max(abs(w[2 * i + j] - (v[2 * i + j] / nrm if outc[i] == k else 0.0)) for i in range(dim) for j in (0, 1))
+    if err > 1e-12:
+        ctx.violations.append(("measuring %d qubits at once: the new state is not the renormalised projection onto the outcome (max deviation %.3g)" % (len(qs), err), {"case": c, "brief": brief(c)}))
 
 def judge(ctx, cases, results, codes):
     stats = {"class_agrees": 0, "outcomes_eq_model": 0, "state_close_model": 0, "draw_in_born_interval": 0, "new_state_normalised": 0,
@@ -212,6 +258,17 @@ def judge(ctx, cases, results, codes):
             if valid_args and not (c["mode"] == "measure_n" and c.get("shots") == 0):
                 ctx.violations.append(("measuring a valid nonzero state failed: %s" % r.get("e"), {"case": c, "brief": b, "u_accepted": r.get("u_accepted"), "adj_accepted": r.get("adj_accepted")}))
                 continue
+        if c.get("big") and r["r"] == "ok":
+            judge_big(ctx, c, r, stats); continue
+        if c["mode"] == "independence":
+            stats["independence_runs"] = stats.get("independence_runs", 0) + 1
+            if r.get("identical_pairs"):
+                ctx.violations.append(("%d pair(s) of threads that measured side by side obtained the SAME sequence of %d outcomes of a uniform 12-qubit state: their draws are not independent" % (r["identical_pairs"], r["per_thread"]),
+                                       {"case": {k: v for k, v in c.items() if k != "v"}, "first_record": r.get("first_record")}))
+            elif r.get("measure_n_failed") or r.get("distinct", 0) < 200:
+                ctx.violations.append(("measure_n: %d shots of a uniform 12-qubit state gave only %d distinct outcomes (about 248 expected): the shots are not independent draws" % (r["shots"], r.get("distinct", 0)),
+                                       {"case": {k: v for k, v in c.items() if k != "v"}}))
+            continue
         code = codes.get((i, "m"))
         if code is not None:
             for bit, nm in ((1, "class_agrees"), (2, "outcomes_eq_model"), (4, "state_close_model"), (8, "draw_in_born_interval"), (16, "new_state_normalised")):
